@@ -486,11 +486,17 @@ def rule_r10(ctx, rid="C10.R10"):
     else:
         ctx.r.violation(rid, key_of(f, None, "terminator-literal"), "find_double_newline searches %r, not CRLF CRLF: a section also ends where a line was terminated by something else than CRLF" % (T,), f.loc(finds[0]))
     incs = set()
+    def _k(e):
+        try:
+            v = p.fold(e, f.module)
+        except Exception:
+            return None
+        return v if isinstance(v, int) and not isinstance(v, bool) else None
     for x in ast.walk(f.node):
-        if isinstance(x, ast.AugAssign) and isinstance(x.op, ast.Add) and isinstance(x.value, ast.Constant):
-            incs.add(x.value.value)
-        if isinstance(x, ast.BinOp) and isinstance(x.op, ast.Add) and isinstance(x.right, ast.Constant) and isinstance(x.left, ast.Name):
-            incs.add(x.right.value)
+        if isinstance(x, ast.AugAssign) and isinstance(x.op, ast.Add) and _k(x.value) is not None:
+            incs.add(_k(x.value))
+        if isinstance(x, ast.BinOp) and isinstance(x.op, ast.Add) and isinstance(x.left, ast.Name) and _k(x.right) is not None:
+            incs.add(_k(x.right))
     if not incs:
         raise AnalysisError("find_double_newline: cannot see by how much the found position is advanced")
     if incs == {len(T)}:
@@ -532,6 +538,11 @@ def rule_r11(ctx, rid="C10.R11"):
     if not starts:
         raise AnalysisError("cannot find where the control line `%s` is cut out" % var)
     errs = [n for n in g.nodes if n.kind == "stmt" and isinstance(n.ast, ast.Assign) and any(dotted(t) == "self.error" for t in n.ast.targets)]
+    # the line is not finished where the joined bytes are stored back as the carry (`self.control_line = s`): with the
+    # partition spelling the cut precedes the finished / unfinished test, so that arm lies behind the start node as well
+    carries = [n for n in g.nodes if n.kind == "stmt" and isinstance(n.ast, ast.Assign) and any(dotted(t) == "self.control_line" for t in n.ast.targets)
+               and not (isinstance(n.ast.value, ast.Constant) and n.ast.value.value == b"")]
+    errs = errs + carries
     heads = [x for x in g.nodes if x.kind == "join" and x.label == "loop_head"]
     for st in starts:
         leak = None
